@@ -80,6 +80,10 @@ func (s *DefaultSaftyRules) CheckVote(qc QuorumCertInterface, logid string, vali
 	}
 	// 签名和公钥是否匹配
 	if ok, err := s.Crypto.VerifyVoteMsgSign(signs[0], qc.GetProposalId()); !ok {
+		// the verifier reports a signature that simply does not verify as (false, nil)
+		if err == nil {
+			err = InvalidVoteSign
+		}
 		return err
 	}
 	// 检查voteinfo信息, proposalView小于lastVoteRound，parentView不小于preferredRound
